@@ -14,7 +14,7 @@ META = {
         "packet id, whether or not it was seen before; the session-level and the region-level subscribers are each invoked iff the "
         "packet is unreliable or Circuit.track_reliable reports it new, and at most once; a subscriber failure at session level does "
         "not skip the region level. Circuit.track_reliable (new iff not in the window; window gains it), Circuit.prepare_message "
-        "(IDs strictly increasing) are proved on their bodies (contracts shared with C05). B (bounded): arrival sequences with "
+        "(IDs strictly increasing) are proved on their bodies (contracts shared with C05). Circuit.collect_acks: every ack carried by an incoming message is looked up and removed exactly once under the opposite direction, and the waiting future is resolved iff there was an entry; without an explicit PacketAck body exactly the piggybacked acks are processed. B (bounded): arrival sequences with "
         "duplication/reordering of packets and acks in both forms, virtual clock for the resend budget, subscribers at both levels."),
     "trusted_base": [
         "deserialize returns a fresh message with a packet id; message handlers may raise; region lookup returns a region with a circuit",
@@ -72,6 +72,8 @@ def register(reg):
             "implies(defined('should_handle') and not truthy(should_handle), False)",
         ],
         frame=["*.direction", "*.sender", "*.seen_reliable"]))
+    from contracts import c19b_contracts
+    c19b_contracts.register_p2(reg, PID)
 
 
 from contracts import c19_native
